@@ -564,7 +564,7 @@ fn main() {
         }
     };
     run("C12", args.n(1500, 40_000), &mut c12, &c12_case);
-    run("C13", args.n(3000, 60_000), &mut c13, &c13_case);
+    run("C13", args.n(3000, 300_000), &mut c13, &c13_case);
     if args.wants("C14") || args.wants("C13") {
         // C14 workload (its failing operations are also C13's session half)
         let mut n = args.n(if args.wants("C14") { 600 } else { 150 }, 12_000);
